@@ -16,7 +16,11 @@ import (
 
 	v3 "github.com/projectcalico/api/pkg/apis/projectcalico/v3"
 	"github.com/projectcalico/api/pkg/client/clientset_generated/clientset/fake"
+	apierrors "k8s.io/apimachinery/pkg/api/errors"
 	metav1 "k8s.io/apimachinery/pkg/apis/meta/v1"
+	"k8s.io/apimachinery/pkg/runtime"
+	"k8s.io/apimachinery/pkg/runtime/schema"
+	k8stesting "k8s.io/client-go/testing"
 	"k8s.io/client-go/tools/cache"
 
 	"github.com/projectcalico/calico/kube-controllers/pkg/controllers/ippool"
@@ -36,6 +40,46 @@ type state struct {
 	blocks cache.SharedIndexInformer
 	ctrl   *ippool.IPPoolController
 	cidrs  map[string]string // pool name -> cidr token (as created)
+
+	// write-failure plan of the pass in progress (nil outside a pass)
+	inPass     bool
+	failStatus map[string]bool
+	failFin    map[string]bool
+}
+
+var poolGVR = v3.SchemeGroupVersion.WithResource("ippools")
+
+// installReactor makes the fake clientset behave like the API server for IPPool writes issued by
+// the controller: `status` is a subresource (UpdateStatus changes only the status, Update never
+// changes it), and the (verb, pool) pairs of the current failure plan fail with a conflict.
+func (s *state) installReactor() {
+	s.cli.PrependReactor("update", "ippools", func(a k8stesting.Action) (bool, runtime.Object, error) {
+		if !s.inPass {
+			return false, nil, nil // the harness's own writes (events) go straight to the tracker
+		}
+		obj := a.(k8stesting.UpdateAction).GetObject().(*v3.IPPool)
+		sub := a.GetSubresource()
+		if (sub == "status" && s.failStatus[obj.Name]) || (sub == "" && s.failFin[obj.Name]) {
+			return true, nil, apierrors.NewConflict(schema.GroupResource{Group: "projectcalico.org", Resource: "ippools"}, obj.Name, fmt.Errorf("injected write failure"))
+		}
+		curObj, err := s.cli.Tracker().Get(poolGVR, "", obj.Name)
+		if err != nil {
+			return true, nil, err
+		}
+		cur := curObj.(*v3.IPPool)
+		var merged *v3.IPPool
+		if sub == "status" {
+			merged = cur.DeepCopy()
+			merged.Status = obj.Status.DeepCopy()
+		} else {
+			merged = obj.DeepCopy()
+			merged.Status = cur.Status.DeepCopy()
+		}
+		if err := s.cli.Tracker().Update(poolGVR, merged, ""); err != nil {
+			return true, nil, err
+		}
+		return true, merged.DeepCopy(), nil
+	})
 }
 
 var ctx = context.Background()
@@ -45,6 +89,7 @@ func newState() *state {
 	s.pools = cache.NewSharedIndexInformer(&cache.ListWatch{}, &v3.IPPool{}, 0, cache.Indexers{})
 	s.blocks = cache.NewSharedIndexInformer(&cache.ListWatch{}, &v3.IPAMBlock{}, 0, cache.Indexers{})
 	s.ctrl = ippool.NewController(ctx, s.cli, s.pools, s.blocks, &fakeIPAM{}).(*ippool.IPPoolController)
+	s.installReactor()
 	return s
 }
 
@@ -210,8 +255,26 @@ func before(a, b snap) bool { // a sorts before b among incumbents
 	return a.name < b.name
 }
 
+func eff(p snap) bool { return p.t && !p.disabled && !p.deleting && p.valid } // True and usable by IPAM
+
+func effDisjoint(m map[string]snap) bool {
+	for a, pa := range m {
+		for b, pb := range m {
+			if a < b && eff(pa) && eff(pb) && pa.pfx.Overlaps(pb.pfx) {
+				return false
+			}
+		}
+	}
+	return true
+}
+
 func (s *state) oracle(h *rt.H, pre, post map[string]snap, blocks []netip.Prefix, history []string) {
 	in := map[string]any{"history": history}
+	failing := len(s.failStatus)+len(s.failFin) > 0
+	// (1F) whatever writes fail, a pass never makes two effectively-allocatable pools overlap
+	if effDisjoint(pre) && !effDisjoint(post) {
+		h.OracleFail("effective-overlap", "a pass (possibly with failed writes) left two enabled, non-deleting Allocatable=True pools overlapping although none overlapped before", in)
+	}
 	names := make([]string, 0, len(post))
 	for n := range post {
 		names = append(names, n)
@@ -221,7 +284,7 @@ func (s *state) oracle(h *rt.H, pre, post map[string]snap, blocks []netip.Prefix
 	for i, a := range names {
 		for _, b := range names[i+1:] {
 			pa, pb := post[a], post[b]
-			if pa.t && pb.t && pa.valid && pb.valid && pa.pfx.Overlaps(pb.pfx) {
+			if !failing && pa.t && pb.t && pa.valid && pb.valid && pa.pfx.Overlaps(pb.pfx) {
 				h.OracleFail("allocatable-overlap", fmt.Sprintf("pools %s and %s are both Allocatable=True and overlap", a, b), in)
 			}
 		}
@@ -259,7 +322,7 @@ func (s *state) oracle(h *rt.H, pre, post map[string]snap, blocks []netip.Prefix
 	}
 	// (4') every allocatable pool carries the finalizer after a reconcile
 	for n, q := range post {
-		if q.t && !q.deleting && !q.fin && q.valid {
+		if q.t && !q.deleting && !q.fin && q.valid && !s.failFin[n] && !s.failStatus[n] { // demanded only when this pool's writes went through
 			h.OracleFail("allocatable-without-finalizer", fmt.Sprintf("pool %s is Allocatable=True but has no finalizer after reconcile", n), in)
 		}
 	}
@@ -341,14 +404,26 @@ func exec(h *rt.H, c *caseCtx, op string) string {
 			s.gc()
 		}
 		return s.show()
-	case "reconcile":
+	case "reconcile", "reconcilef":
+		s.failStatus, s.failFin = map[string]bool{}, map[string]bool{}
+		if w[0] == "reconcilef" {
+			for i, m := range []map[string]bool{s.failStatus, s.failFin} {
+				if w[1+i] != "-" {
+					for _, n := range strings.Split(w[1+i], "+") {
+						m[n] = true
+					}
+				}
+			}
+		}
 		s.syncInformer()
 		pre := s.snapshot()
 		var blocks []netip.Prefix
 		for _, o := range s.blocks.GetIndexer().List() {
 			blocks = append(blocks, netip.MustParsePrefix(o.(*v3.IPAMBlock).Spec.CIDR))
 		}
-		_ = s.ctrl.VerifReconcile() // an unparsable CIDR on a deleting pool is reported as an error; state is what matters
+		s.inPass = true
+		_ = s.ctrl.VerifReconcile() // errors (unparsable CIDR on a deleting pool, injected write failures) are aggregated; the state is what matters
+		s.inPass = false
 		s.gc()
 		post := s.snapshot()
 		s.oracle(h, pre, post, blocks, c.history)
@@ -439,6 +514,8 @@ func genCase(h *rt.H) []string {
 			ops = append(ops, fmt.Sprintf("setfin %s %d", name(), h.Intn(2)))
 		case k < 74:
 			ops = append(ops, "sort")
+		case k < 82:
+			ops = append(ops, "reconcilef "+nameSet(h, npools)+" "+nameSet(h, npools))
 		default:
 			ops = append(ops, "reconcile")
 		}
@@ -447,11 +524,45 @@ func genCase(h *rt.H) []string {
 	return ops
 }
 
+func nameSet(h *rt.H, npools int) string {
+	var ns []string
+	for i := 0; i < npools; i++ {
+		if h.Intn(3) == 0 {
+			ns = append(ns, fmt.Sprintf("p%02d", i))
+		}
+	}
+	if len(ns) == 0 {
+		return "-"
+	}
+	return strings.Join(ns, "+")
+}
+
+// genFailureScenario: an allocatable pool with a block is deleted while an overlapping pool is
+// held back; writes fail on the passes right after the deletion.
+func genFailureScenario(h *rt.H) []string {
+	cidrs := genCidrs(h)
+	a, b := rt.Pick(h, cidrs), rt.Pick(h, cidrs)
+	ops := []string{"new", fmt.Sprintf("create p00 %s %d", a, h.Intn(3)), "reconcile", "addblock " + a,
+		fmt.Sprintf("create p01 %s %d", b, 1+h.Intn(3))}
+	if h.Bool() {
+		ops = append(ops, fmt.Sprintf("create p02 %s %d", rt.Pick(h, cidrs), h.Intn(4)))
+	}
+	ops = append(ops, "reconcile", "delete p00")
+	for i := 0; i < 1+h.Intn(3); i++ {
+		ops = append(ops, "reconcilef "+nameSet(h, 3)+" "+nameSet(h, 3))
+	}
+	ops = append(ops, "reconcile")
+	if h.Bool() {
+		ops = append(ops, "delblock "+a, "reconcilef "+nameSet(h, 3)+" "+nameSet(h, 3), "reconcile")
+	}
+	return ops
+}
+
 func main() {
 	h := rt.New()
 	defer h.Close()
 	h.Rule = "case = up to 8 pools named pNN over 8 nested/sibling/identical CIDRs of one small v4 or v6 range (1 in 5 cases mixes families; 1 in 25 creates has an unparsable CIDR), " +
-		"creation times 0..3 (ties), 8..47 events over {create, disable, delete, addblock, delblock, setcond (arbitrary configuration), setfin, sort, reconcile}; " +
+		"creation times 0..3 (ties), 8..47 events over {create, disable, delete, addblock, delblock, setcond (arbitrary configuration), setfin, sort, reconcile, reconcilef (a pass in which the UpdateStatus / finalizer Update of random pools fail with a conflict)}; 1 case in 6 is a targeted scenario (allocatable pool with a block deleted next to a held-back overlapping pool, failing passes right after); " +
 		"non-trivial = some reconcile saw >=2 overlapping pools or a deleting pool; distinct = distinct op sequence"
 	run := func(ops []string, tag string) {
 		h.Case(tag)
@@ -462,7 +573,10 @@ func main() {
 			h.Op(op, out)
 			f := strings.Fields(op)[0]
 			h.Count("op:" + f)
-			if f == "reconcile" {
+			if f == "reconcilef" {
+				h.Count("reconcilef:passes-with-injected-failures")
+			}
+			if f == "reconcile" || f == "reconcilef" {
 				if strings.Contains(out, "CIDROverlap") {
 					h.Count("reconcile:with-overlap")
 					nontriv = true
@@ -486,6 +600,10 @@ func main() {
 		return
 	}
 	for i := 0; i < h.N; i++ {
-		run(genCase(h), "gen")
+		if i%6 == 5 {
+			run(genFailureScenario(h), "failure-scenario")
+		} else {
+			run(genCase(h), "gen")
+		}
 	}
 }
